@@ -556,6 +556,9 @@ pub struct Session<'a, 'b> {
 }
 
 thread_local! {
+    /// Do not call `vars()` at all during this run (the other runs call it before the first
+    /// `next()` and after every step): calling or not calling it must not matter
+    pub static NEVER_CALL_VARS: std::cell::Cell<bool> = const { std::cell::Cell::new(false) };
     /// Enter through the deprecated alias `TestCase::run_iter` instead of `try_iter`
     pub static ENTER_THROUGH_RUN_ITER: std::cell::Cell<bool> = const { std::cell::Cell::new(false) };
 }
@@ -577,16 +580,24 @@ pub fn construct<'a, 'b>(
     verif_hooks::set_seed_override(None);
     let draws = conv_draws(verif_hooks::take_draw_log());
     match r {
-        Ok(Ok(it)) => (
-            Construct::Ok,
-            Some(Session {
-                tc,
-                it,
-                shared,
-                dead: false,
-            }),
-            draws,
-        ),
+        Ok(Ok(it)) => {
+            // vars() before the first next(): whatever it reports, it must not panic
+            if !NEVER_CALL_VARS.with(|c| c.get()) {
+                if let Err(p) = guarded(|| it.vars().len()) {
+                    return (Construct::Panic(p), None, draws);
+                }
+            }
+            (
+                Construct::Ok,
+                Some(Session {
+                    tc,
+                    it,
+                    shared,
+                    dead: false,
+                }),
+                draws,
+            )
+        }
         Ok(Err(IterationError::Driver(e))) => (
             Construct::ErrDriver {
                 nonce: e.nonce,
@@ -624,7 +635,7 @@ impl<'a, 'b> Session<'a, 'b> {
                 RealItem::Panic(p)
             }
         };
-        let vars = if self.dead {
+        let vars = if self.dead || NEVER_CALL_VARS.with(|c| c.get()) {
             None
         } else {
             let it = &self.it;
